@@ -98,7 +98,11 @@ func checkDatasetSummary(t *rapid.T, d *dataset.Dataset, vals []float64) {
 	for _, v := range vals {
 		sumAbs += math.Abs(v)
 	}
-	if got := d.Sum(); !(math.Abs(got-want) <= 8*0x1p-52*sumAbs) && !math.IsInf(sumAbs, 0) {
+	if math.IsInf(sumAbs, 0) {
+		// known finding K1 (known_findings.json): partial sums may overflow in the order the values are held; the sum
+		// is judged relative to the total of |v| and not at all when that total is not a finite float64
+		stats.Count("C20", "sum_not_judged_overflow", 1)
+	} else if got := d.Sum(); !(math.Abs(got-want) <= 8*0x1p-52*sumAbs) {
 		t.Fatalf("C20: Sum = %v want %v (+- %v)", got, want, 8*0x1p-52*sumAbs)
 	}
 }
